@@ -98,7 +98,7 @@ func c01Shape(g *genRun, w string) string {
 			return "c01_space_class_range_widened"
 		}
 	}
-	if hasRawSingleLineSegment(g.p.Body, g.p) {
+	if hasRawSingleLineSegment(g.p.Body, g.p) || explainedByRawCopy(g, w) {
 		return "c01_single_line_segment_copied_raw"
 	}
 	if explainedBySpaceSequence(g, w) {
@@ -190,6 +190,26 @@ func explainedBySpaceSequence(g *genRun, w string) bool {
 		if e1 != nil || e2 != nil || a != b {
 			return false
 		}
+	}
+	return true
+}
+
+// the difference is exactly what the raw copy of single-line segments produces: the reading of the
+// program WITH that rule (prog.go PlainReadingRaw) differs from the plain reading and agrees with
+// the output on the witness in all four contexts
+func explainedByRawCopy(g *genRun, w string) bool {
+	variant, ok := g.p.PlainReadingRaw()
+	if !ok || variant == g.den.txt {
+		return false
+	}
+	for _, ctx := range [][2]bool{{true, true}, {true, false}, {false, true}, {false, false}} {
+		a, e1 := matchExact(g.first.Stdout, w, ctx[0], ctx[1])
+		b, e2 := matchExact(variant, w, ctx[0], ctx[1])
+		c, e3 := matchExact(g.den.txt, w, ctx[0], ctx[1])
+		if e1 != nil || e2 != nil || e3 != nil || a != b {
+			return false
+		}
+		_ = c
 	}
 	return true
 }
